@@ -97,6 +97,21 @@ def handle (line : String) : String :=
       let (s1, r) := execute (fuelFor m bs.length) m s0 (toU8 bs) none
       Driver.Canon.render s1 r
     | _, _ => "bad-op"
+  | ["runs", maxOps, checkStart, progs] =>
+    -- consecutive Execute calls on one interpreter; the calls stop at the first one that returns an error
+    match maxOps.toNat?, mapM? bytesOfHex (progs.splitOn ",") with
+    | some m, some parts =>
+      let s0 := { newInterpreter with checkStart := checkStart == "1" }
+      let rec go (s : State) : List (List Nat) → State × Res
+        | [] => (s, .ok)
+        | bs :: rest =>
+          let (s1, r) := execute (fuelFor m bs.length) m s (toU8 bs) none
+          match r with
+          | .ok => go s1 rest
+          | _ => (s1, r)
+      let (s1, r) := go s0 parts
+      Driver.Canon.render s1 r
+    | _, _ => "bad-op"
   | ["pfb", stream, sizes, sched] =>
     match bytesOfHex stream, mapM? String.toNat? (splitList sizes ","), mapM? String.toNat? (splitList sched ",") with
     | some bs, some ns, some sc =>
